@@ -103,14 +103,16 @@ c.setup(_setup)
 c.cases([{'k': 0}, {'k': 1}])
 c.ensures('itself', 'len(_st) == 1 and _st[0] == srce')
 
-c = contract(VM, 'VmMath.push', serves=['C02'], name='VmMath.push[variable]')
+c = contract(VM, 'VmMath.push', serves=['C02', 'C03'], name='VmMath.push[variable]')
 def _setup(b, case):
     m, vmm, st = vm_math(b, [])
-    x = b.sym('str', 'x')
+    # any name, and in particular names that resemble internal registers: a variable is a variable
+    x = b.sym('str', 'x') if case['name'] == 'any' else case['name']
     v = b.sym('int', 'v')
     m.attrs['_call_stack'].attrs['_top'].attrs['vars'].d[x] = v
     return {'self': vmm, 'srce': x, '_st': st, '_v': v}
 c.setup(_setup)
+c.cases([{'name': n} for n in ('any', 'power', 'result', 'name', 'pc', 'matrix', 'Hue', 'first_zone')])
 c.ensures('its-value', 'len(_st) == 1 and _st[0] == _v')
 
 c = contract(VM, 'VmMath.pop', serves=['C02'], name='VmMath.pop[register]')
